@@ -3,6 +3,7 @@
 list of still-open known findings is kept as committed).  Run by hand, never by a check."""
 import json, subprocess
 PROP = {  # subject prefix -> (properties, what failed before the repair)
+ "the non-skipping max/min keep a null": ("C08", "cummax / cummin(skip_na=False): a null in the FIRST position of a group was dropped ([NaN,5,7] -> [NaN,5,7]) although a later one sticks ([5,NaN,7] -> [5,NaN,NaN]); a NaT never stuck to a running maximum of timestamps"),
  "merge of per-block partial": ("C03 C04", "group_min/max/first with n_threads>=2: a group absent from the first block came back null (reduce_array_pair without counts)"),
  "chunked value arrays reach": ("C04 C16", "var of one float32 value gave inf; squares taken in the input dtype; chunked values missed the chunked path"),
  "head/tail/nth count the rows": ("C15", "nth on a 70000-row group: int16 row counters overflowed"),
